@@ -144,7 +144,8 @@ def gen_script(rnd, tier, state):
                 L.append("regU|%s|%d|%s|%s" % (sv(v), p, rnd.choice(["#b", "#n", "#t"]), info))
                 L += observations()
                 continue
-            L.append("regU|%s|%d|%s%s|%s" % (sv(v), p, "@" if rnd.random() < 0.2 else "", n, info))
+            # `^p`: `provided` is not passed either, the component itself provides it
+            L.append("regU|%s|%s%d|%s%s|%s" % (sv(v), "^" if rnd.random() < 0.15 else "", p, "@" if rnd.random() < 0.2 else "", n, info))
             S.util[(p, n)] = (v, info)
         elif k < 0.42:
             if S.util and rnd.random() < 0.75:
@@ -268,6 +269,9 @@ def oracle(chk, lines, outs, known=None):
             continue
         if dead:
             continue
+        if "API-DISAGREE" in out:
+            bad.append((i, "%s: a query method of the Components object does not answer as the lookup on its registries does: %s" % (line, out.split("API-DISAGREE")[1].strip())))
+            continue
         if out.startswith("err") or out == "bad" or out.startswith("sro-mismatch"):
             bad.append((i, "%s -> %s" % (line, out)))
             continue
@@ -331,7 +335,7 @@ def oracle(chk, lines, outs, known=None):
                 continue
             want_ret, want_ev = "None", []
             if op == "regU":
-                p, n, info = int(f[2]), f[3].lstrip("@"), f[4]
+                p, n, info = int(f[2].lstrip("^")), f[3].lstrip("@"), f[4]
                 old = S.util.get((p, n))
                 if old is not None and eq(old[0], v) and old[1] == info:
                     want_ev = []
